@@ -4,8 +4,9 @@
   `Tag`/`Length`/`Header` decode+encode (X.690 definite length, minimal length octets),
   `asn1::integer::uint::{strip_leading_zeroes, needs_leading_zero, encoded_len, decode_to_slice}`,
   `UintRef::{new, decode_value, encode_value}`, `AnyRef::decode_as`, `SliceReader::finish`.
-  The crate's own glue (`TryFrom<UintRef> for Uint`: right-aligned `copy_from_slice` into the
-  `ByteArray`, offset by `saturating_sub`) is modelled exactly as written, including its panic.
+  The crate's own glue (`TryFrom<UintRef> for Uint`: length check, then right-aligned
+  `copy_from_slice` into the `ByteArray`, offset by `saturating_sub`) is modelled exactly as written
+  (after the repair `fix: DER decoding of an INTEGER longer than the target Uint panicked`).
 
   Byte strings are `List Nat` (each `< 256`), big endian.  `to_be_byte_array` / `from_be_byte_array`
   (src/uint/array.rs) are the positional expansion `beBytes` / `beVal` on the VALUE of the limbs
@@ -127,10 +128,13 @@ def copyIntoTail (array : List Nat) (offset : Nat) (src : List Nat) : Option (Li
   if offset ≤ array.length ∧ array.length - offset = src.length then some (array.take offset ++ src)
   else none
 
-/-- crate glue `TryFrom<UintRef> for Uint<LIMBS>` (der.rs:26-31) on `bytes = UintRef::as_bytes()`:
-    `offset = BYTES.saturating_sub(len)`, copy, `from_be_byte_array`. A failed copy is the panic. -/
+/-- crate glue `TryFrom<UintRef> for Uint<LIMBS>` (der.rs:26-34) on `bytes = UintRef::as_bytes()`:
+    `if len > BYTES { return Err(length_error) }`, `offset = BYTES.saturating_sub(len)`, copy,
+    `from_be_byte_array`. A failed copy would be a panic (unreachable behind the length check:
+    `CB.P18.glue_never_panics`). -/
 def uintFromUintRef (n : Nat) (bytes : List Nat) : Dec :=
   let array := List.replicate (8 * n) 0
+  if array.length < bytes.length then .err else
   let offset := array.length - bytes.length
   match copyIntoTail array offset bytes with
   | none => .panic
@@ -241,7 +245,7 @@ def derEncodeToSlice (n : Nat) (a : List Nat) (cap : Nat) : Option (List Nat) :=
 
 /-- L0: what property C18 demands of a decoder — the same accepted set, and an error (never a
     panic) everywhere else.  `CB.P18.derSpec_ok_iff` pins it down: `ok a` iff `bs` is the canonical
-    encoding of `a`. -/
+    encoding of `a`.  Since the repair of the glue it coincides with L1 (`CB.P18.derSpec_eq_model`). -/
 def failClosed : Dec → Dec
   | .panic => .err
   | r => r
